@@ -374,8 +374,10 @@ HasArrays(b) == PhiLays(b) # LayC \/ XLays(b) # LayC
 \*          the fixed order of the source entries)
 \*   tol:   numpy reductions (sum / dot / trapz) over the argument: statistics, likelihood sums, sampling from phi,
 \*          marginalisation, population removal, admixture (trapz inside)
+\*   (anscombe_2d is "tol" since round 6: numpy's power loop for a negatively strided VIEW of a Spectrum is the scalar one and
+\*    differs from the vectorised contiguous loop by one unit in the last place in single entries - observed 4.4e-16 - not a dadi matter)
 LayoutExact(b) == b \in {e[1] : e \in {x \in ExtraTab : x[5]}} \cup IntB \cup ProjectB \cup PhiXB \cup Phim1B \cup PerturbVB \cup PerturbB
-                         \cup {"fold_2d", "unfold_2d", "log_2d", "reorder_fs_3d", "filter_3d", "ll_per_bin_2d", "anscombe_2d",
+                         \cup {"fold_2d", "unfold_2d", "log_2d", "reorder_fs_3d", "filter_3d", "ll_per_bin_2d",
                                "phi_2D_to_3D_split_1", "reorder_pops_3d"}
 
 \* ------------------------------------------------------------------ footprints (full keys), read from the code
